@@ -879,6 +879,12 @@ def pydict_method(ctx, interp, ref, o, name, args, kwargs, node):
                 raise Unsupported('symbolic key in literal dict', node)
         pairs.append((args[0], args[1] if len(args) > 1 else NONE))
         return pairs[-1][1]
+    if name == 'update' and len(args) == 1 and isinstance(args[0], VRef) and ctx.obj(args[0]).kind == 'pydict':
+        for k, v in list(ctx.obj(args[0]).meta['pairs']):
+            pydict_setitem(ctx, ref, o, k, v, node)
+        return NONE
+    if name == 'copy' and not args:
+        return ctx.new_obj('pydict', meta={'pairs': list(pairs)})
     raise Unsupported('dict method %s on literal dict' % name, node)
 
 
